@@ -11,6 +11,7 @@ one ELFFile through a drawn history of address_offsets / iter_segments generator
 by item, closed or dropped half way (model: Model/C02Hist.v, theorem C02_address_offsets_history_exact)."""
 import io, os, re, subprocess, tempfile, zlib
 from tools.lib.framework import impl_call, VERIF
+from tools.lib.streams import Streams, KINDS, draw_kind
 
 CLAIMED = True
 CONFIG = {
@@ -115,7 +116,7 @@ class Img:
         self.name_off = []
         for i in range(len(sections)):
             self.name_off.append(len(names))
-            names += b's%d\0' % (i + 1)
+            names += sections[i].get('name', b's%d' % (i + 1)) + b'\0'
         self.strname = len(names)
         names += b'.shstrtab\0'
         self.names = names
@@ -207,9 +208,16 @@ class BigImg:
         return img
 
 
+# the stream kind of the case being evaluated (tools/lib/streams.py): every ELFFile the harness opens for that case -
+# fresh objects, shared objects, predecessors - sits on a stream of that kind; all kinds present the same bytes
+_CUR = {'streams': None, 'kind': 'bytesio'}
+
+
 def open_elf(img):
     from elftools.elf.elffile import ELFFile
-    return ELFFile(io.BytesIO(img))
+    if _CUR['streams'] is None or _CUR['kind'] == 'bytesio':
+        return ELFFile(io.BytesIO(img))
+    return ELFFile(_CUR['streams'].open(img, _CUR['kind']))
 
 
 def open_after_predecessor(ctx, sibling, img, use):
@@ -279,7 +287,7 @@ ENTRY_POINTS = ('get_section(1) on a new ELFFile', 'get_section(1)', 'second ite
                 "get_section(get_section_index('s1'))")
 
 
-def obtain_section(how, new_elf, shared_elf):
+def obtain_section(how, new_elf, shared_elf, name='s1'):
     """section 1 of the image through one of the ENTRY_POINTS; all of them must lead to the same section"""
     if how == 0:
         return new_elf().get_section(1)
@@ -291,15 +299,16 @@ def obtain_section(how, new_elf, shared_elf):
         next(it)
         return next(it)         # the walk is abandoned here
     if how == 3:
-        assert elf.has_section('s1')
-        return elf.get_section_by_name('s1')
+        if not elf.has_section(name):
+            raise LookupError('has_section(%r) is False' % name)
+        return elf.get_section_by_name(name)
     if how == 4:
         return list(elf.iter_sections())[1]
     if how == 5:
         t = elf.get_section(1)['sh_type']
         # sections 0 (SHT_NULL) and 2 (.shstrtab) may have the same type: section 1 is the first or second match
         return list(elf.iter_sections(type=t))[1 if t == 'SHT_NULL' else 0]
-    return elf.get_section(elf.get_section_index('s1'))
+    return elf.get_section(elf.get_section_index(name))
 
 
 def draw_orders(rng, big=False):
@@ -426,6 +435,44 @@ def gen_sections(ctx, cases):
     for cfg in cfgs[:2] + cfgs[2:3]:
         for cut in (0, 1, STD[cfg[0]]['ch'] - 1):
             cases.append(('sec_chdr_cut', [cfg, BASE, cut, draw_orders(rng), draw_shdr_free(rng, cfg[0])]))
+
+
+def section_kinds(cfg):
+    """(sh_type, sh_entsize, link target, name): every specialised section class ELFFile._make_section knows, with
+    the header fields its constructor wants (entry size of its table, sh_link to a string table = section 2 or to a
+    symbol table = section 3).  Their CONTENTS are plain: data() is the file extent whatever the class."""
+    is64, le, mach = cfg
+    sym, rel, rela, word = (24, 16, 24, 8) if is64 else (16, 8, 12, 4)
+    kinds = [(2, sym, 2, None), (11, sym, 2, None), (0x6ffffff3, sym, 2, None), (18, 4, 3, None),
+             (0x6ffffffc, 4, 3, None), (0x6ffffffe, 0, 2, None), (0x6ffffffd, 0, 2, None), (0x6fffffff, 2, 3, None),
+             (9, rel, 3, None), (4, rela, 3, None), (19, word, 0, None), (6, 2 * word, 2, None), (7, 0, 0, None),
+             (5, 4, 3, None), (0x6ffffff6, 0, 3, None), (3, 0, 0, None), (1, 12, 0, b'.stab')]
+    if mach in ('EM_ARM', 'EM_RISCV'):
+        kinds.append((0x70000003, 0, 0, None))
+    return kinds
+
+
+def gen_section_kinds(ctx, cases):
+    """contents of every section KIND, sizes on and off the grid of the kind's entry size"""
+    rng = ctx.rng
+    cfgs = (CFGS[:4] + [CFGS[4], CFGS[6]]) if ctx.tier == 'quick' else CFGS
+    for cfg in cfgs:
+        for sht, ent, link, name in section_kinds(cfg):
+            unit = ent or 4
+            for k, r in ctx.scale([(0, 0), (1, 0), (3, unit // 2), (2, 1), (5, unit - 1)],
+                                  [(0, 0), (0, 1), (1, 0), (1, 1), (3, unit // 2), (2, 1), (5, unit - 1), (40, 3), (64, 0)]):
+                if sht in (2, 11, 0x6ffffff3):
+                    r = 0               # SymbolTableSection itself rejects (ELFError) a size off its entry grid:
+                                        # such a table is not a well-formed image, the property does not speak
+                size = max(k * unit + r, 0)
+                if sht == 0x70000003:
+                    size = max(size, 1)     # an attributes section starts with its format version byte 'A'
+                if sht in (5, 0x6ffffff6) and size < 64:
+                    size += 64          # the hash sections parse their parameter words when constructed
+                off = BASE + rng.choice([0, 1, 7, 64])
+                cases.append(('sec_kind', [cfg, sht, rng.choice([0, 2, 3, 0x42]), rng.getrandbits(20), off, size,
+                                           rng.choice([0, 1, 4, 8]), off + size + 200, rng.getrandbits(8), draw_orders(rng),
+                                           [link, rng.choice([0, 1, 3]), ent, rng.choice([0, 0, 8, 24])], name or b's1']))
 
 
 def draw_phdr_free(rng, is64, filesz):
@@ -778,6 +825,19 @@ def gen_sis(ctx, cases):
             g[0] = rng.choice(segtypes + [0x70000000, 0x70000003, 0x60000000, 0x6fffffff, 0x12345])
             cases.append(('sis', [cfg, g, s]))
             cases.append(('sis_oracle', [cfg, g, s]))
+    # processor-specific p_type values that the library decodes to NAMES for this e_machine (PT_ARM_EXIDX,
+    # PT_AARCH64_UNWIND / _MEMTAG_MTE, PT_MIPS_*, PT_RISCV_ATTRIBUTES): binutils' rule has no clause for them, they
+    # behave like any "other" segment type - sections with and without SHF_ALLOC / SHF_TLS inside, abutting, outside
+    for cfg in (CFGS[4], CFGS[5]) if quick else (CFGS[4], CFGS[5], CFGS[3], CFGS[6]):
+        fgeo = sis_geometry(P, F, [0, 1, 0x10, F])
+        segs = [(t, 4, P, V, V, F, M, 1) for t in (0x70000000, 0x70000001, 0x70000002, 0x70000003, PT['LOAD'], PT['NOTE'])]
+        for (off, S) in fgeo if not quick else rng.sample(fgeo, 12) + [(P + 0x20, 0x10)]:
+            for fl in flagsets:
+                for sht, a in ((1, V + (off - P)), (1, 0), (8, V + 0x20)):
+                    s = [sht, fl, a % 2 ** 32, off, S]
+                    for g in segs:
+                        cases.append(('sis', [cfg, list(g), s]))
+                        cases.append(('sis_oracle', [cfg, list(g), s]))
     # values near the top of the unsigned range: 2^64 for ELF64, 2^32 for ELF32 (no wrap there in 64-bit arithmetic)
     for cfg in (CFGS[0], CFGS[2]) if quick else CFGS[:4]:
         top = 2 ** (64 if cfg[0] else 32)
@@ -821,11 +881,14 @@ def corpus(ctx):
 def gen(ctx):
     cases = []
     gen_sections(ctx, cases)
+    gen_section_kinds(ctx, cases)
     gen_strings(ctx, cases)
     gen_segments(ctx, cases)
     gen_addr(ctx, cases)
     gen_addr_hist(ctx, cases)
     gen_addr_big(ctx, cases)
+    # the stream kind is drawn per case and is the last element of the abstract (replays carry it)
+    cases = [(k, a + [draw_kind(ctx.rng, 0.7)]) for k, a in cases]
     gen_sis(ctx, cases)
     return cases
 
@@ -858,7 +921,7 @@ def readelf_mapping(img, nseg):
 
 
 # ---- running orders / histories on the real objects
-def run_sec_orders(ctx, img, orders, extent=None):
+def run_sec_orders(ctx, img, orders, extent=None, name='s1'):
     """one FRESH section object per order; answers in the shape of the driver's sec_obs.  The case's shared ELFFile
     is opened after a predecessor over the same image with the bytes of the section's file extent changed."""
     shared = []
@@ -879,7 +942,7 @@ def run_sec_orders(ctx, img, orders, extent=None):
         ctx.bump('section_entry_point', ENTRY_POINTS[how])
 
         def one():
-            sec = obtain_section(how, lambda: open_elf(img), elf_shared)
+            sec = obtain_section(how, lambda: open_elf(img), elf_shared, name)
             ans = []
             for code in order:
                 if code == 0:
@@ -994,10 +1057,25 @@ def run_history(ctx, img, ops):
 
 
 class Work:
-    __slots__ = ('kind', 'a', 'img', 'plan', 'enc_lo', 'enc_n', 'extra', 'model_req', 'spec_req', 'mi', 'si')
+    __slots__ = ('full', 'skind', 'kind', 'a', 'img', 'plan', 'enc_lo', 'enc_n', 'extra', 'model_req', 'spec_req', 'mi', 'si')
 
 
 def evaluate(ctx, cases):
+    _CUR['streams'], _CUR['kind'] = Streams(prefix='pv-c02-streams-'), 'bytesio'
+    try:
+        _evaluate(ctx, cases)
+    finally:
+        _CUR['streams'].close()
+        _CUR['streams'], _CUR['kind'] = None, 'bytesio'
+
+
+def model_for(w, in_dom, model):
+    """the model is of BytesIO semantics: outside the property's domain (extents past the end of the file, negative
+    read sizes) the other stream kinds may legitimately differ (mmap.seek past EOF raises); no drift is counted there"""
+    return model if in_dom or w.skind == 'bytesio' else None
+
+
+def _evaluate(ctx, cases):
     drv = ctx.driver
     works = []
     enc_reqs = []
@@ -1006,13 +1084,33 @@ def evaluate(ctx, cases):
     # ---- pass 1: plans and encoder requests
     for kind, a in cases:
         w = Work()
+        w.full, w.skind = a, 'bytesio'
+        if a and isinstance(a[-1], str) and a[-1] in KINDS:
+            a, w.skind = a[:-1], a[-1]          # trailing element of an abstract: the stream kind of the case
         w.kind, w.a, w.plan, w.extra = kind, a, None, {}
-        if kind == 'sec_plain':
+        if kind in ('sec_plain', 'sec_kind'):
             cfg, sht, flags, addr, off, size, align, length, seed = a[:9]
             fr = a[10] if len(a) > 10 else [0, 0, 0]
-            w.plan = Img(cfg, [dict(type=sht, flags=flags, addr=addr, offset=off, size=size, addralign=align,
-                                    link=fr[0], info=fr[1], entsize=fr[2])], [], length=length, seed=seed,
-                         shextra=fr[3] if len(fr) > 3 else 0)
+            secs = [dict(type=sht, flags=flags, addr=addr, offset=off, size=size, addralign=align,
+                         link=fr[0], info=fr[1], entsize=fr[2])]
+            if kind == 'sec_kind':
+                # section 2: a string table, section 3: a dynamic symbol table over it (targets of sh_link)
+                secs[0]['name'] = a[11]
+                symsz = 24 if cfg[0] else 16
+                secs.append(dict(type=3, flags=0, addr=0, offset=off + size + 16, size=8))
+                secs.append(dict(type=11, flags=2, addr=0, offset=off + size + 24, size=2 * symsz, link=2, info=1,
+                                 entsize=symsz))
+            blobs = []
+            if kind == 'sec_kind' and sht in (5, 0x6ffffff6):
+                # the hash section classes read their table when constructed: a minimal well-formed table (one bucket,
+                # one chain / one bloom word) stands at the start of the extent, garbage follows
+                import struct
+                e, xw = '<' if cfg[1] else '>', 'Q' if cfg[0] else 'I'
+                tbl = struct.pack(e + '4I', 1, 1, 0, 0) if sht == 5 else struct.pack(e + '4I' + xw + 'I', 1, 1, 1, 0, 0, 0)
+                blobs = [(off, tbl)]
+            if kind == 'sec_kind' and sht == 0x70000003:
+                blobs = [(off, b'A')]       # the attributes section classes check their format version byte
+            w.plan = Img(cfg, secs, [], blobs=blobs, length=length, seed=seed, shextra=fr[3] if len(fr) > 3 else 0)
         elif kind == 'sec_nobits':
             cfg, flags, addr, off, size, align, length, seed = a[:8]
             fr = a[9] if len(a) > 9 else [0, 0, 0]
@@ -1120,10 +1218,10 @@ def evaluate(ctx, cases):
             pl.blobs = [(o, bytes(0 if b == 0 else b % 127 + 1 for b in t)) for o, t in keep]
             w.extra['sibling'] = pl.finish(e)
             pl.blobs = keep
-        if kind in ('sec_plain', 'sec_nobits', 'sec_chdr_cut'):
+        if kind in ('sec_plain', 'sec_kind', 'sec_nobits', 'sec_chdr_cut'):
             s = pl.sections[0]
             o = ['error', b'']
-            nfix = {'sec_plain': 9, 'sec_nobits': 8, 'sec_chdr_cut': 3}[kind]
+            nfix = {'sec_plain': 9, 'sec_kind': 9, 'sec_nobits': 8, 'sec_chdr_cut': 3}[kind]
             w.extra['orders'] = a[nfix] if len(a) > nfix else OLD_ORDER
             olist = [o2 for _, o2 in w.extra['orders']]
             w.mi = ask(['sec_obs_at', w.img, le, is64, mach, pl.shoff, pl.shentsize, 1, o, olist])
@@ -1239,14 +1337,20 @@ def evaluate(ctx, cases):
     for w in works:
         kind, a = w.kind, w.a
         ctx.bump('kind', kind)
-        if kind in ('sec_plain', 'sec_nobits', 'sec_comp', 'sec_chdr_cut'):
+        if _CUR['streams']._open:
+            _CUR['streams'].drop_files()        # the previous case's files
+        _CUR['kind'] = w.skind
+        if kind not in ('sis', 'sis_oracle'):
+            ctx.bump('stream_kind', w.skind)
+        if kind in ('sec_plain', 'sec_kind', 'sec_nobits', 'sec_comp', 'sec_chdr_cut'):
             model = answers[w.mi]
             sp = answers[w.si]
             in_dom = sp != 'none'
             spec = sp[1] if in_dom else model
             sh = w.plan.sections[0]
             lo = max(sh['offset'], w.plan.tables_end)       # the headers stay: the sibling has the same geometry
-            impl = run_sec_orders(ctx, w.img, w.extra['orders'], extent=(lo, sh['offset'] + sh['size'] - lo))
+            impl = run_sec_orders(ctx, w.img, w.extra['orders'], extent=(lo, sh['offset'] + sh['size'] - lo),
+                                  name=sh.get('name', b's1').decode())
             key = None
             nt = True
             if kind == 'sec_comp':
@@ -1261,10 +1365,13 @@ def evaluate(ctx, cases):
                     key = K_ORDER
                 ctx.bump('chdr_class', ('ELF64' if a[0][0] else 'ELF32') + ('LE' if a[0][1] else 'BE'))
             else:
-                size = a[5] if kind == 'sec_plain' else a[4] if kind == 'sec_nobits' else 0
+                size = a[5] if kind in ('sec_plain', 'sec_kind') else a[4] if kind == 'sec_nobits' else 0
+                if kind == 'sec_kind':
+                    ctx.bump('section_kind', hex(a[1]) + ('/.stab' if a[11] == b'.stab' else ''))
+                    ctx.bump('size_mod_entsize', 'n/a' if not a[10][2] else 'on grid' if a[5] % a[10][2] == 0 else 'off grid')
                 nt = size > 0
                 ctx.bump('size', size if size < 300 else '300+')
-            ctx.record(kind, a, impl=impl, spec=spec, model=model, in_domain=in_dom, nontrivial=nt, key=key)
+            ctx.record(kind, w.full, impl=impl, spec=spec, model=model_for(w, in_dom, model), in_domain=in_dom, nontrivial=nt, key=key)
         elif kind == 'strtab':
             mstr = [utf8_canon(x) for x in answers[w.mi]]
             sp = answers[w.si]
@@ -1297,7 +1404,7 @@ def evaluate(ctx, cases):
             ctx.bump('strtab_offsets', len(offs) // 100 * 100)
             ctx.bump('strtab_longest_string', max(len(x) for x in a[2]) // 8192 * 8192)
             ctx.bump('strtab_order', 'ascending' if not (len(a) > 6 and a[6][0]) else 'descending' if a[6][0] == 1 else 'shuffled')
-            ctx.record(kind, a, impl=impl, spec=spec, model=model, in_domain=in_dom,
+            ctx.record(kind, w.full, impl=impl, spec=spec, model=model_for(w, in_dom, model), in_domain=in_dom,
                        nontrivial=any(len(s) >= 63 for s in a[2]))
         elif kind == 'seg_data':
             mdata = answers[w.mi]
@@ -1339,7 +1446,7 @@ def evaluate(ctx, cases):
             model = [mdata if c == 0 else msis[c] for c in ops]
             spec = [sdata if c == 0 else ssis[c] for c in ops]
             ctx.bump('seg_obtained', ('get_segment', 'iter_segments abandoned', 'list(iter_segments)', 'iter_segments(type) abandoned')[how])
-            ctx.record(kind, a, impl=impl, spec=spec, model=model, in_domain=in_dom, nontrivial=a[3] > 0)
+            ctx.record(kind, w.full, impl=impl, spec=spec, model=model_for(w, in_dom, model), in_domain=in_dom, nontrivial=a[3] > 0)
         elif kind == 'interp':
             mname = answers[w.mi]
             if isinstance(mname, list) and mname[0] == 'ok':
@@ -1367,7 +1474,7 @@ def evaluate(ctx, cases):
             impl = impl_call(run)
             model = [mname if c == 0 else mdata for c in ops]
             spec = [sname if c == 0 else sdata for c in ops]
-            ctx.record(kind, a, impl=impl, spec=spec, model=model, in_domain=in_dom, nontrivial=len(a[2]) > 0)
+            ctx.record(kind, w.full, impl=impl, spec=spec, model=model_for(w, in_dom, model), in_domain=in_dom, nontrivial=len(a[2]) > 0)
         elif kind == 'addr':
             cfg, phgap, phextra, segs, start, size = a
             model = answers[w.mi]
@@ -1380,14 +1487,14 @@ def evaluate(ctx, cases):
                 return ['ok', list(elf.address_offsets(start) if size is None else elf.address_offsets(start, size))]
             impl = impl_call(run)
             ctx.bump('addr_hits', len(offs))
-            ctx.record(kind, a, impl=impl, spec=spec, model=model, in_domain=in_dom, nontrivial=True)
+            ctx.record(kind, w.full, impl=impl, spec=spec, model=model_for(w, in_dom, model), in_domain=in_dom, nontrivial=True)
         elif kind == 'addr_big':
             cfg, phextra, runs, ops = a
             fits, sans = answers[w.si]
             in_dom = bool(fits) and w.plan.fits
             impl = impl_call(lambda: run_history(ctx, w.img, ops))
             ctx.bump('program_headers', w.plan.count)
-            ctx.record(kind, a, impl=impl, spec=sans, model=None, in_domain=in_dom, nontrivial=True)
+            ctx.record(kind, w.full, impl=impl, spec=sans, model=None, in_domain=in_dom, nontrivial=True)
         elif kind == 'addr_hist':
             cfg, phgap, phextra, segs, ops = a
             model = answers[w.mi]
@@ -1396,7 +1503,7 @@ def evaluate(ctx, cases):
             spec = sans if in_dom else model
             impl = impl_call(lambda: run_history(ctx, w.img, ops))
             ctx.bump('history_ops', len(ops) // 5 * 5)
-            ctx.record(kind, a, impl=impl, spec=spec, model=model, in_domain=in_dom, nontrivial=True)
+            ctx.record(kind, w.full, impl=impl, spec=spec, model=model_for(w, in_dom, model), in_domain=in_dom, nontrivial=True)
         elif kind == 'sis':
             cfg, g, s = a
             dom, strict, lists, tbss = answers[w.si]
@@ -1410,7 +1517,7 @@ def evaluate(ctx, cases):
                 key = K_SFRAME
             ctx.bump('sis_domain', 'in' if dom else ('tbss_special' if tbss else 'wraps'))
             ctx.bump('sis_result', strict)
-            ctx.record(kind, a, impl=impl, spec=strict if dom else model, model=model, in_domain=bool(dom),
+            ctx.record(kind, w.full, impl=impl, spec=strict if dom else model, model=model, in_domain=bool(dom),
                        nontrivial=True, key=key)
         elif kind == 'sis_oracle':
             cfg, g, s = a
@@ -1418,7 +1525,7 @@ def evaluate(ctx, cases):
             oracle = int(sis_impl[(tuple(cfg), kind, tuple(s), tuple(g))])
             ctx.bump('sis_oracle', 'agree' if oracle == lists else 'DISAGREE')
             # "impl" here is the installed readelf, "spec" the Coq macro incl. readelf's TBSS filter
-            ctx.record(kind, a, impl=oracle, spec=lists, model=None, in_domain=True, nontrivial=True, key=K_ORACLE)
+            ctx.record(kind, w.full, impl=oracle, spec=lists, model=None, in_domain=True, nontrivial=True, key=K_ORACLE)
     try:
         (VERIF / '.readelf-tmp').rmdir()
     except OSError:
